@@ -219,6 +219,19 @@ func (p *SrvPlan) Shrinks() []any {
 	})
 	add(func(q *SrvPlan) bool { c := q.Peer.HeaderTableSize != -1; q.Peer.HeaderTableSize = -1; return c })
 	add(func(q *SrvPlan) bool { c := q.Peer.MaxFrameSize != -1; q.Peer.MaxFrameSize = -1; return c })
+	// lanes that are not request models (walks, floods, control lanes): drop single ops, last first
+	for i := range p.Lanes {
+		if p.Lanes[i].Req != nil || len(p.Lanes[i].Ops) < 2 || len(p.Lanes[i].Ops) > 60 {
+			continue
+		}
+		for k := len(p.Lanes[i].Ops) - 1; k >= 0; k-- {
+			i, k := i, k
+			add(func(q *SrvPlan) bool {
+				q.Lanes[i].Ops = append(q.Lanes[i].Ops[:k:k], q.Lanes[i].Ops[k+1:]...)
+				return true
+			})
+		}
+	}
 	// per-lane simplifications
 	for i := range p.Lanes {
 		i := i
